@@ -94,6 +94,21 @@ pub fn judge(case: &[u8], acc: &mut Acc) {
             acc.violation("formatted-line-not-canonical", "v1::Addresses::to_string", format!("a well-formed line carrying {}", v.describe()), format!("{:?} reads as {:?}", escape(lb), other));
         }
     }
+    // "distinct values never share a line", also across calls: right before the round trip, every entry point is
+    // given the *neighbouring* lines -- this line with its last digit dropped, and with one more digit -- so that a
+    // parser which remembers its previous input and matches by prefix answers with the neighbour's value below
+    if line.len() > 18 {
+        let body = &line[..line.len() - 2];
+        for near in [format!("{}\r\n", &body[..body.len() - 1]), format!("{}0\r\n", body), format!("{}\r\nGET /", body)] {
+            let _ = guard(|| (v1_str(&near).map(|r| r.is_ok()), v1_bytes(near.as_bytes()).map(|r| r.is_ok()), near.parse::<v1::Addresses>().is_ok(), near.parse::<v1::Header<'static>>().is_ok()));
+            let again = guard(|| line.parse::<v1::Addresses>());
+            acc.eval(5);
+            if !matches!(&again, Ok(Ok(x)) if *x == a) {
+                acc.violation("roundtrip-depends-on-history", "str::parse::<v1::Addresses>() after parsing a neighbouring line", format!("{:?}", a), format!("{:?} (after {:?})", again, near));
+                break;
+            }
+        }
+    }
     // every text entry point parses it back
     let r1 = v1_str(&line);
     let r2 = v1_bytes(lb);
